@@ -375,7 +375,72 @@ def k_interface(params):
     return res(evals=n, nontrivial=nontriv, viol=list(viol.values()), stats={"interface_runs": n}, sample={"index_sets": [list(i) for i in idx_sets[params["lo"]:params["lo"] + 3]], "runs": n})
 
 
-KINDS = {"config": k_config, "run_one": k_run_one, "interface": k_interface}
+def k_family(params):
+    """end-to-end: PeriodicOrbit.generate on a corrected seed; every member must be periodic with its *own* period (independent propagation),
+    the family respects the member limit and the target interval, and natural steps move the continuation parameter by the step"""
+    from hiten.system.base import System
+    from hiten.algorithms.continuation.config import OrbitContinuationConfig
+    from hiten.algorithms.continuation.options import OrbitContinuationOptions
+    from hiten.algorithms.types.states import SynodicState
+    from props.c05 import make_orbit, closure
+
+    system = System.from_bodies("earth", "moon")
+    mu = float(system.mu)
+    fam, Ln, amp = params["family"], params["point"], params["amp"]
+    stepper = params["stepper"]
+    viol = {}
+    tag = "family=%s L%d amplitude=%g stepper=%s" % (fam, Ln, amp, stepper)
+
+    def V(key, what, obs=None, exp=None):
+        viol.setdefault("family/" + key, violation("family/" + key, what + " [%s]" % tag, obs, exp))
+    seed_orbit = make_orbit(system, fam, Ln, amp)
+    seed_orbit.correct()
+    idx = int(SynodicState.Z) if fam.startswith("halo") else int(SynodicState.X)
+    p0 = float(seed_orbit.initial_state[idx])
+    step = params["step"]
+    mm = params["max_members"]
+    lo, hi = sorted((p0 - 1e-9, p0 + params["target_span"] * (1 if step > 0 else -1)))
+    seed_orbit.continuation_config = OrbitContinuationConfig(state=(SynodicState.Z,) if fam.startswith("halo") else (SynodicState.X,), stepper=stepper)
+    opts = OrbitContinuationOptions(target=([lo], [hi]), step=(step,), max_members=mm, max_retries_per_step=5, step_min=1e-8, step_max=1.0, shrink_policy=None,
+                                    extra_params=seed_orbit.correction_options)
+    try:
+        result = seed_orbit.generate(opts)
+    except Exception as exc:
+        V("raises", "generate raised %s: %s" % (type(exc).__name__, str(exc)[:160]))
+        return res(evals=1, nontrivial=0, viol=list(viol.values()))
+    members = list(result.family)
+    n = len(members)
+    if n > mm:
+        V("member_limit", "family has %d members, limit %d" % (n, mm), n, mm)
+    if int(result.accepted_count) != n:
+        V("accepted_count", "accepted_count=%s, family has %d members" % (result.accepted_count, n), result.accepted_count, n)
+    pars = [float(m.initial_state[idx]) for m in members]
+    out_of = [i for i, p in enumerate(pars) if p < lo or p > hi]
+    if any(i != n - 1 for i in out_of):
+        V("target_interval", "members %s lie outside the target interval [%g, %g] but generation continued" % (out_of, lo, hi), out_of)
+    periods = []
+    closures = []
+    for i, m in enumerate(members):
+        T = m.period
+        if T is None:
+            V("member_period_missing", "member %d carries no period" % i)
+            continue
+        periods.append(float(T))
+        c = closure(mu, np.asarray(m.initial_state, dtype=float), float(T))
+        closures.append(c)
+        if c > 1e-6:
+            V("member_not_periodic", "member %d (parameter %.6f) does not return after its own period %.6f: |phi_T(x0)-x0| = %.3e" % (i, pars[i], T, c), c, 1e-6)
+    if len(periods) >= 2 and max(periods) - min(periods) < 1e-9:
+        V("periods_identical", "all members carry the same period %.9f (each member must carry its own)" % periods[0], periods)
+    if stepper == "natural" and n >= 2:
+        d = np.diff(pars)
+        if np.max(np.abs(np.abs(d) - abs(step))) > 1e-9 and int(result.rejected_count) == 0:
+            V("natural_step", "consecutive members differ by %s in the continuation parameter, step is %g (no rejection occurred)" % (d.tolist(), step), d, step)
+    return res(evals=n, nontrivial=n if n >= 2 else 0, viol=list(viol.values()), stats={"family_members_checked": n},
+               sample={"tag": tag, "members": n, "parameters": pars, "periods": periods, "max_closure": max(closures) if closures else None})
+
+
+KINDS = {"config": k_config, "run_one": k_run_one, "interface": k_interface, "family": k_family}
 
 
 def cases(tier, seed):
@@ -404,6 +469,11 @@ def cases(tier, seed):
                                                            "step_min": smin, "step_max": smax, "shrink": shrink}}))
     for lo in range(0, 38, 10):
         out.append(("interface", {"lo": lo, "hi": lo + 10}))
+    for stepper in ("natural", "secant"):
+        out.append(("family", {"family": "halo_s", "point": 1, "amp": 0.2, "stepper": stepper, "step": 0.002, "target_span": 0.005, "max_members": 6}))
+        out.append(("family", {"family": "lyapunov", "point": 1, "amp": 0.02, "stepper": stepper, "step": 0.001, "target_span": 0.1, "max_members": 4}))
+        if tier != "quick":
+            out.append(("family", {"family": "halo_n", "point": 2, "amp": 0.1, "stepper": stepper, "step": -0.002, "target_span": 0.1, "max_members": 5}))
     return out
 
 
